@@ -59,7 +59,16 @@ def main(argv):
         mod.run(ctx)
         if tier == "thorough" and hasattr(mod, "run_thorough"):
             mod.run_thorough(ctx)
-        ctx.check_floors()
+        floor_error = None
+        try:
+            ctx.check_floors()
+        except F.CheckerError as e:
+            # a violation that was found is reported even when a floor is missed (the missing instances are usually its consequence)
+            if any(i["ok"] is False for i in ctx.instances):
+                floor_error = str(e)
+                print("note: %s" % e)
+            else:
+                raise
     except F.CheckerError as e:
         print("CHECKER-ERROR property=%s %s" % (pid, e))
         return 2
